@@ -230,7 +230,13 @@ def run(ctx):
         kinds[c[0]] = kinds.get(c[0], 0) + 1
         for cause, msg in bad:
             viols.append({"cause": cause, "msg": msg, "case": list(c), "_idx": _i})
-    cov = {"evaluations": len(cases), "distinct_nontrivial": len({repr(c) for c in cases}),
+    sres = {"violations": [], "coverage": {"executions": 0}}
+    if not ctx.alt:
+        from vf.checks import c13s
+        ctx.close()
+        sres = c13s.run_s(ctx)
+        viols += sres["violations"]
+    cov = {"evaluations": len(cases) + sres["coverage"]["executions"], "schedules": sres["coverage"], "distinct_nontrivial": len({repr(c) for c in cases}),
            "rule": "one evaluation = one statm record / mapping list (paths x optional lines x roll-up mode) / memory_percent argument "
                    "rendered by simk and read through memory_info, memory_full_info, memory_maps(both forms), memory_percent; "
                    "distinct by construction",
@@ -240,6 +246,9 @@ def run(ctx):
 
 
 def replay(ctx, case):
+    if isinstance(case, dict) and case.get("part") == "S":
+        from vf.checks import c13s
+        return c13s.replay_s(ctx, case)
     w, p = mk_world(ctx.seed)
     use_world(w)
     for c in history_of(case):
